@@ -233,7 +233,35 @@ def class_ok(name, r):
     return True
 
 
+AMBIENT_KEYS = ("prec", "rounding", "Emin", "Emax", "capitals", "clamp", "traps")
+
+
+def ambient_context(a):
+    """The calling thread's decimal context described by the case field `ambient`
+    ({"prec": 6, "rounding": "ROUND_DOWN", "Emin": -5, "traps": ["Inexact"], ...}; fields left out keep the stock value)."""
+    k = decimal.Context(prec=28, rounding=decimal.ROUND_HALF_EVEN, Emin=-999999, Emax=999999, capitals=1, clamp=0, flags=[],
+                        traps=[decimal.InvalidOperation, decimal.DivisionByZero, decimal.Overflow])
+    for key in ("prec", "Emin", "Emax", "capitals", "clamp"):
+        if key in a:
+            setattr(k, key, int(a[key]))
+    if "rounding" in a:
+        k.rounding = getattr(decimal, a["rounding"])
+    if "traps" in a:
+        for name in a["traps"]:
+            k.traps[getattr(decimal, name)] = True
+    return k
+
+
 def run_impl(c):
+    """The cast of case `c`; with a field `ambient`, made while the calling thread's decimal context is that one
+    (the statement gives the value of a cast from its input and options: the caller's context is neither)."""
+    if c.get("ambient"):
+        with decimal.localcontext(ambient_context(c["ambient"])):
+            return run_impl_plain(c)
+    return run_impl_plain(c)
+
+
+def run_impl_plain(c):
     if "column" in c:
         return run_column(c)
     T = orso_type(c["ty"][0])
@@ -580,8 +608,33 @@ def report_single(ctx, c, out, clause, m):
             c_min = shrink_int(c, clause)
         elif c["ty"][0] in ("VARCHAR", "BLOB"):
             c_min = shrink_prefix(c, clause)
+    if c_min.get("ambient") and not ctx.replaying:
+        c_min = shrink_ambient(c_min, clause)
     o2 = run_impl(c_min)
     ctx.fail(c_min, oracle(c_min, o2) or clause, impl=[o2[0], repr(o2[1])[:200]], model=m if c_min is c else None)
+
+
+def shrink_ambient(c, clause):
+    """Drop every field of the ambient context that the failure does not need (the same clause must still fail);
+    an input that fails without any ambient context loses the field altogether."""
+    def fails(c2):
+        try:
+            return _norm(oracle(c2, run_impl(c2))) == _norm(clause)
+        except Exception:
+            return False
+    cur = dict(c)
+    amb = dict(cur["ambient"])
+    for key in list(amb):
+        trial = {k_: v_ for k_, v_ in amb.items() if k_ != key}
+        c2 = dict(cur)
+        if trial:
+            c2["ambient"] = trial
+        else:
+            c2.pop("ambient")
+        if fails(c2):
+            amb = trial
+            cur = c2
+    return cur
 
 
 def shrink_array(c, clause):
@@ -1702,6 +1755,87 @@ def decimal_cases(ctx, grid, per):
             yield case(ty, v)
 
 
+AMBIENT_FIXED = [
+    {"prec": 6}, {"prec": 3}, {"prec": 1}, {"prec": 50}, {"prec": 27}, {"prec": 29},
+    {"prec": 6, "rounding": "ROUND_DOWN"}, {"prec": 3, "rounding": "ROUND_CEILING", "traps": ["Inexact", "Rounded"]},
+    {"prec": 50, "rounding": "ROUND_UP", "traps": ["Inexact"]}, {"rounding": "ROUND_FLOOR"}, {"traps": ["Inexact", "Rounded", "Subnormal", "Underflow", "Clamped"]},
+    {"Emin": -5, "prec": 3}, {"Emin": -5, "traps": ["Subnormal", "Underflow"]}, {"Emin": -27}, {"Emax": 5, "prec": 6}, {"Emax": 5, "Emin": -5, "traps": ["Overflow", "Underflow"]},
+    {"clamp": 1, "prec": 6}, {"capitals": 0}, {"Emax": 0, "Emin": 0, "prec": 1, "rounding": "ROUND_05UP", "clamp": 1, "capitals": 0, "traps": ["Inexact", "Rounded", "Subnormal", "Underflow", "Clamped", "FloatOperation"]},
+]
+ROUNDINGS = ["ROUND_DOWN", "ROUND_HALF_UP", "ROUND_HALF_EVEN", "ROUND_CEILING", "ROUND_FLOOR", "ROUND_UP", "ROUND_HALF_DOWN", "ROUND_05UP"]
+TRAPS = ["Inexact", "Rounded", "Subnormal", "Underflow", "Overflow", "Clamped", "FloatOperation"]
+
+
+def gen_ambient(rng):
+    a = {}
+    if rng.random() < 0.8:
+        a["prec"] = rng.choice([1, 2, 3, 6, 9, 20, 27, 28, 29, 38, 50, 100])
+    if rng.random() < 0.5:
+        a["rounding"] = rng.choice(ROUNDINGS)
+    if rng.random() < 0.3:
+        a["Emin"] = rng.choice([0, -1, -5, -27, -28, -29, -40])
+    if rng.random() < 0.3:
+        a["Emax"] = rng.choice([0, 1, 5, 27, 28, 37, 38, 40])
+    if rng.random() < 0.2:
+        a["clamp"] = 1
+    if rng.random() < 0.1:
+        a["capitals"] = 0
+    if rng.random() < 0.5:
+        a["traps"] = sorted(rng.sample(TRAPS, rng.randint(1, 4)))
+    return a or {"prec": 6}
+
+
+def ambient_cases(ctx, n):
+    """Ambient interpreter state outside the arguments of the cast: the calling thread's decimal context (precision, rounding mode,
+    exponent range, clamp, capitals, enabled traps).  The same generated cases as elsewhere (DECIMAL over the boundary grid, INTEGER,
+    DOUBLE, text, temporal, boolean; canonical renderings with their expected values, non-fitting and malformed inputs for the
+    model correspondence), each cast while such a context is the current one, judged by the same oracle and the same model answer."""
+    rng = ctx.rng
+    g = [(1, 0), (1, 1), (5, 2), (10, 3), (9, 9), (12, 9), (20, 10), (28, 28), (29, 28), (38, 0), (38, 21), (38, 28), (38, 38)] + rng.sample(
+        [(p, s) for p in range(1, 39) for s in range(0, p + 1)], ctx.scale(12, 80))
+    fixed = [
+        case(["DECIMAL", 20, 10], "0.1234567891", "decimal: exact when it fits", D("0.1234567891")),
+        case(["DECIMAL", 38, 28], D("1.0000000000000000000000000001"), "decimal: identity on a typed value", D("1.0000000000000000000000000001")),
+        case(["DECIMAL", 12, 9], b"-123.456789012", "decimal: exact when it fits", D("-123.456789012")),
+        case(["DECIMAL", 38, 0], "12345678901234567890123456789012345678", "decimal: exact when it fits", D("12345678901234567890123456789012345678")),
+        case(["DECIMAL", 38, 38], " 0.12345678901234567890123456789012345678 "),
+        case(["DECIMAL", 38, 38], " 0.1234567890123456789012345678 ", "decimal: exact when it fits (padded)", D("0.1234567890123456789012345678")),
+        case(["DECIMAL", None, None], "5", "decimal: exact when it fits", D(5)),
+        case(["DECIMAL", 5, 2], 123, "decimal: exact when it fits", D(123)),
+        case(["INTEGER"], "123456789012345678901234567890", "integer rendering", 123456789012345678901234567890),
+        case(["INTEGER"], D("123456789012345678901234567890")),
+        case(["DOUBLE"], "0.1234567891234567", "float rendering (repr)", 0.1234567891234567),
+        case(["DOUBLE"], D("0.1234567891234567")),
+        case(["DOUBLE"], D("1E+400")),
+        case(["VARCHAR", None], D("1E+30")),
+        case(["BOOLEAN"], D("1.0")),
+    ]
+    for a in AMBIENT_FIXED:
+        for c in fixed:
+            c2 = dict(c)
+            c2["ambient"] = dict(a)
+            ctx.hit("ambient:fixed-context")
+            yield c2
+    import itertools
+    pools = [decimal_cases(ctx, g, 3), int_cases(ctx, n // 4), double_cases(ctx, n // 4), temporal_cases(ctx, max(20, n // 20)), bool_cases(ctx)]
+    k = 0
+    for c in itertools.chain(*pools):
+        if c["val"] is not None and c["val"].get("t") == "obj":
+            continue
+        k += 1
+        c2 = dict(c)
+        c2["ambient"] = dict(AMBIENT_FIXED[k % len(AMBIENT_FIXED)]) if k % 3 == 0 else gen_ambient(rng)
+        a = c2["ambient"]
+        ctx.hit("ambient:prec=%s" % a.get("prec", "stock"))
+        if "rounding" in a:
+            ctx.hit("ambient:rounding")
+        if "traps" in a:
+            ctx.hit("ambient:traps")
+        if "Emin" in a or "Emax" in a:
+            ctx.hit("ambient:exponent-range")
+        yield c2
+
+
 def array_cases(ctx, n):
     import orjson
 
@@ -2023,6 +2157,7 @@ def run(ctx):
     batches(ctx, temporal_cases(ctx, ctx.scale(400, 5000)))
     batches(ctx, decimal_cases(ctx, grid(ctx), ctx.scale(6, 12)))
     batches(ctx, array_cases(ctx, ctx.scale(800, 10000)))
+    batches(ctx, ambient_cases(ctx, ctx.scale(1200, 12000)))
     seq_batches(ctx, sequence_cases(ctx, ctx.scale(1200, 15000)))
     evaluate_threads(ctx, thread_pairs(ctx, ctx.scale(4, 150)), ctx.scale(4, 90), ctx.scale(4, 60))
     ctx.note("exhaustive_scope", "decimal (precision, scale) grid: %s" % ("all 780 pairs 0<=s<=p<=38" if ctx.tier == "thorough" else "16 boundary pairs + 60 sampled"))
@@ -2031,6 +2166,7 @@ def run(ctx):
 def intensify(ctx):
     batches(ctx, decimal_cases(ctx, [(p, s) for p in range(0, 39) for s in range(0, p + 1)], 4))
     batches(ctx, int_cases(ctx, 5000))
+    batches(ctx, ambient_cases(ctx, 6000))
     batches(ctx, text_cases(ctx, 3000))
     batches(ctx, array_cases(ctx, 3000))
     seq_batches(ctx, sequence_cases(ctx, 3000))
